@@ -157,10 +157,13 @@ SheetReloadBad(S, P, e, p) ==
   LET x == e.lz.sheets[p] IN
   IF x.name # S[p].name THEN {<<"name after reload", p, x.name>>}
   ELSE IF RelsAffected(S, P, p) THEN {}                 \* foreign relationships: content not predicted
-  ELSE LET asp == IF TabsAffected(S, P, p) THEN SavedAspects \ {"tables"} ELSE SavedAspects
-           ref == IF S[p].loaded THEN e.tw.sheets[p].v.base ELSE orig[S[p].o].base
-           cmp == IF S[p].loaded THEN asp ELSE IF TabsAffected(S, P, p) THEN VsOrig(S[p]) \ {"tables"} ELSE VsOrig(S[p])
-           bad == {a \in cmp : x.v.base[a] # ref[a]}
+  ELSE LET drop == IF TabsAffected(S, P, p) THEN {"tables"} ELSE {}
+           (* a raw sheet is copied: it must read back like the original.  Its defined names are not part of the
+              copy (they live in workbook.xml and are serialised from the model for every sheet), so they are
+              compared with the eager save like every aspect of a materialised sheet *)
+           bad == IF S[p].loaded THEN {a \in SavedAspects \ drop : x.v.base[a] # e.tw.sheets[p].v.base[a]}
+                  ELSE {a \in (Aspects \ {"names"}) \ drop : x.v.base[a] # orig[S[p].o].base[a]} \cup
+                       {a \in {"names"} : x.v.base[a] # e.tw.sheets[p].v.base[a]}
        IN (IF bad # {} THEN {<<IF S[p].loaded THEN "materialised sheet differs from the eager save" ELSE
                                "raw sheet differs from the original", p, bad>>} ELSE {}) \cup
           (IF ToSet(x.v.marks) # MarksPred(S, P, p) \/ Len(x.v.marks) # Cardinality(MarksPred(S, P, p))
@@ -171,9 +174,11 @@ ReloadBad(S, P, e) ==
   ELSE IF Len(e.lz.sheets) # Len(S) THEN {<<"sheets after reload", Len(e.lz.sheets)>>}
   ELSE UNION {SheetReloadBad(S, P, e, p) : p \in DOMAIN S}
 
-(* the twin's save is the reference for materialised sheets: it must have worked *)
-TwinSaveBad(S, e) == \/ e.tw_outcome # "ok" \/ e.tw.outcome # "ok" \/ Len(e.tw.sheets) # Len(S)
-                     \/ Len(e.twpkg.sheets) # Len(S)
+(* the twin's save is the reference for materialised sheets.  Where the eagerly opened workbook cannot be saved
+   and reloaded after this history (a defect of the eager pipeline, e.g. a defined name scoped to a removed sheet),
+   there is nothing to compare a lazily opened workbook with: the save is not judged (c11.py counts these) *)
+TwinSaveFailed(e) == e.tw_outcome # "ok" \/ e.tw.outcome # "ok"
+TwinSaveBad(S, e) == \/ Len(e.tw.sheets) # Len(S) \/ Len(e.twpkg.sheets) # Len(S)
                      \/ \E p \in DOMAIN S : e.tw.sheets[p].name # S[p].name \/ ~MarksOK(e.tw.sheets[p].v, S[p])
 
 SaveBad(S, e, home, tabno, chart) ==
@@ -218,7 +223,10 @@ Step(e) ==
   ELSE LET want == Expected(e) IN
        /\ UNCHANGED orig
        /\ sheets' = Follow(e, want)
-       /\ IF e.a = "Save" /\ TwinSaveBad(sheets, e) THEN Mismatch(l, <<"gen", "Save", "the eager twin could not be saved and reloaded">>)
+       /\ IF e.a = "Save" /\ TwinSaveFailed(e)
+          THEN (IF e.tw_outcome = "ok" /\ ObsBad(e, want) # {} THEN Mismatch(l, <<"impl", "Save", "state after save", Small(ObsBad(e, want))>>)
+                ELSE TRUE)
+          ELSE IF e.a = "Save" /\ TwinSaveBad(sheets, e) THEN Mismatch(l, <<"gen", "Save", "the eager twin's file does not show the specification's sheets and marks">>)
           ELSE IF TwinBad(e, want) THEN Mismatch(l, <<"gen", e.a, "the eager twin does not follow the specification">>)
           ELSE IF e.a # "Save"
           THEN LET bad == ObsBad(e, want) IN IF bad = {} THEN TRUE ELSE Mismatch(l, <<"impl", e.a, Small(bad)>>)
